@@ -74,7 +74,7 @@ def steps(draw):
     if kind in ('gen-json', 'gen-pysnmp'):
         ms = draw(mibgen.module_sets(_profile()))
         return {'k': 'gen', 'backend': 'json' if kind == 'gen-json' else 'pysnmp', 'mod': ms['modules'][0],
-                'genTexts': draw(st.booleans())}
+                'genTexts': draw(st.booleans()), 'keepLayout': draw(st.integers(0, 2)) == 0}
     if kind == 'repeat':
         return {'k': 'repeat'}
     ms = draw(mibgen.module_sets(setcheck.profile_for(None, backends=('json',), dialects=('v2',), modules=(1, 2),
@@ -104,15 +104,20 @@ def _info(info):
             'compliance': sorted(getattr(info, 'compliance', None) or ()), 'imported': list(getattr(info, 'imported', ()) or ())}
 
 
-def _gen(symgen, codegen, tree, genTexts):
+def _identity_filter(symbol, text):
+    return text
+
+
+def _gen(symgen, codegen, tree, genTexts, keep=False):
     """symtable + codegen on deep copies of `tree`; returns comparable outcome."""
     from pysmi import error
     t = copy.deepcopy(tree)
     st_ = fixtures.symtables()
+    kw = {'textFilter': _identity_filter} if keep else {}
     try:
         sinfo, s = symgen.genCode(t, st_, genTexts=genTexts)
         st_[sinfo.name] = s
-        info, text = codegen.genCode(t, st_, genTexts=genTexts, comments=['c'])
+        info, text = codegen.genCode(t, st_, genTexts=genTexts, comments=['c'], **kw)
         return ('ok', _info(sinfo), _info(info), text), (t, st_)
     except error.PySmiError as e:
         return ('err', type(e).__name__, e.msg), None
@@ -220,8 +225,9 @@ def history_prop(case, rec):
                 tree = parserFactory(**(dl.smiV1 if step['mod']['dialect'] == 'v1' else dl.smiV2))().parse(text)[0]
                 last_gen = (step, tree)
             cg_old = old_json if step['backend'] == 'json' else old_py
-            got, _ = _gen(old_sym, cg_old, tree, step['genTexts'])
-            ref, _ = _gen(SymtableCodeGen(), JsonCodeGen() if step['backend'] == 'json' else PySnmpCodeGen(), tree, step['genTexts'])
+            got, _ = _gen(old_sym, cg_old, tree, step['genTexts'], step.get('keepLayout'))
+            ref, _ = _gen(SymtableCodeGen(), JsonCodeGen() if step['backend'] == 'json' else PySnmpCodeGen(), tree, step['genTexts'],
+                          step.get('keepLayout'))
             if got != ref:
                 raise Violation('codegen-state-leak', 'step %d (%s): %s' % (i, step['backend'], _diff(got, ref)), case,
                                 {'step': i, 'text': mibgen.render_simple(step['mod'])})
